@@ -1,6 +1,8 @@
 """Fresh-process helper (C16): several link rounds in ONE process, each with a default-constructed Linker (the
 repository's default loader), while stored module files are replaced between the rounds.
 
+With "one_linker": true all rounds share ONE Linker object: each round adds its modules to it and calls Link() again.
+
 stdin: {"cwd": dir, "rounds": [{"install": {dst: src, ...}, "modules": [root files], "calls": [[fname, args, globals]]}, ...]}
 Each round first copies the files in `install` (src -> dst, both relative to cwd), then links and runs."""
 import json
@@ -35,6 +37,14 @@ def main():
                         if name not in roots_cache:
                             roots_cache[name] = LinearIR.FilesystemModuleLoader().Load(name)
                         linker.AddModule(roots_cache[name])
+                elif job.get("one_linker"):
+                    # ONE linker for all rounds: every round adds its modules to it and links again
+                    if "lk" not in out:
+                        out["lk"] = True
+                        the_linker = LinearIR.Linker()
+                    linker = the_linker
+                    for name in rd["modules"]:
+                        linker.AddModule(LinearIR.FilesystemModuleLoader().Load(name))
                 else:
                     linker = LinearIR.Linker()
                     for name in rd["modules"]:
@@ -54,6 +64,8 @@ def main():
             out["rounds"].append(res)
     except BaseException as e:
         out["error"] = {"cls": type(e).__name__, "msg": str(e)[:200]}
+    out.pop("lk", None)
+    out.pop("mem", None)
     sys.stdout.write("\n@@RESULT@@" + json.dumps(out))
 
 
